@@ -192,7 +192,31 @@ CHILD_RECURSION_LIMIT = 1200
 
 
 def process_globals():
-    return [sys.getrecursionlimit(), repr(sys.getswitchinterval())]
+    """Process-wide settings that change what later yaml / yatiml calls do."""
+    import locale
+    mask = os.umask(0o022)
+    os.umask(mask)
+    return [sys.getrecursionlimit(), repr(sys.getswitchinterval()), os.getcwd(), mask,
+            repr(locale.getlocale()), sys.getdefaultencoding(), sys.getfilesystemencoding()]
+
+
+_ABCS = None
+
+
+def abc_membership(cls):
+    """Which of the common ABCs the class counts as a (virtual) subclass of."""
+    global _ABCS
+    if _ABCS is None:
+        import collections.abc as cabc
+        _ABCS = [cabc.Mapping, cabc.MutableMapping, cabc.Sequence, cabc.MutableSequence, cabc.Set,
+                 cabc.Hashable, cabc.Iterable, cabc.Callable, cabc.Sized, cabc.Container]
+    out = []
+    for a in _ABCS:
+        try:
+            out.append(issubclass(cls, a))
+        except TypeError:
+            out.append(None)
+    return out
 
 
 def cheap_fingerprint_fn():
@@ -346,9 +370,11 @@ def shared_state_fn(env):
 
 
 def class_snapshot(cls):
-    """Identity of every class attribute, and the content of plain-data ones
-    (a dict or list the user put on the class may be mutated in place)."""
-    out = []
+    """Identity of every class attribute, the content of plain-data ones (a dict or
+    list the user put on the class may be mutated in place), the bases, and the ABCs
+    the class is registered with."""
+    out = [('<bases>', 0, repr([b.__qualname__ for b in cls.__bases__])),
+           ('<abcs>', 0, repr(abc_membership(cls)))]
     for k, v in vars(cls).items():
         if isinstance(v, (dict, list, set, tuple, str, int, float, bool, type(None))):
             out.append((k, id(v), canon.short(canon.canon(v))))
